@@ -93,6 +93,10 @@ Layouts == [
                    Pool("p2", <<"b3">>, FALSE, FALSE, Pin(1, {"ns1"}, {})) >>,
   PinNoAuto2 |-> << Pool("p1", <<"b0">>, FALSE, TRUE, Pin(5, {"ns1"}, {})),
                     Pool("p2", <<"b3">>, FALSE, FALSE, Pin(1, {"ns1"}, {})) >>,
+  PinSel1  |-> << Pool("p1", <<"b01">>, FALSE, TRUE, Pin(1, {}, {"x"})),
+                  Pool("p2", <<"b23">>, FALSE, TRUE, NULL) >>,
+  PinSel2  |-> << Pool("p1", <<"b01">>, FALSE, TRUE, Pin(1, {}, {"x", "y"})),    \* two serviceSelectors: any of them admits
+                  Pool("p2", <<"b23">>, FALSE, TRUE, NULL) >>,
   PinMoveA |-> << Pool("p1", <<"b01">>, FALSE, TRUE, Pin(1, {"ns1"}, {})),
                   Pool("p2", <<"b3">>, FALSE, TRUE, NULL) >>,
   PinMoveB |-> << Pool("p1", <<"b01">>, FALSE, TRUE, Pin(1, {"ns2"}, {})),
